@@ -38,6 +38,28 @@ pub fn current() -> Option<crate::spec::Scenario> {
     CURRENT.lock().unwrap_or_else(|e| e.into_inner()).clone()
 }
 
+thread_local! {
+    /// this OS thread is executing the shuttle runtime (all shuttle tasks of a run share one OS
+    /// thread). A library that enters the REAL rayon pool (scope/spawn/an own pool - nothing on
+    /// the pinned tree does) runs parts of its work on other OS threads, where shuttle's
+    /// primitives must not be touched: there the model seam simply does not yield.
+    static IN_SHUTTLE: std::cell::Cell<bool> = const { std::cell::Cell::new(false) };
+}
+pub struct ShuttleScope(bool);
+impl ShuttleScope {
+    pub fn enter() -> Self {
+        ShuttleScope(IN_SHUTTLE.with(|c| c.replace(true)))
+    }
+}
+impl Drop for ShuttleScope {
+    fn drop(&mut self) {
+        IN_SHUTTLE.with(|c| c.set(self.0));
+    }
+}
+pub fn in_shuttle_thread() -> bool {
+    IN_SHUTTLE.with(|c| c.get())
+}
+
 #[inline]
 pub fn beat() {
     HEARTBEAT.fetch_add(1, Ordering::Relaxed);
@@ -187,7 +209,7 @@ impl Ctl {
     /// in overlap mode: a scheduling point for the shuttle scheduler
     #[inline]
     pub fn sched_point(&self) {
-        if self.overlap.load(Ordering::Relaxed) {
+        if self.overlap.load(Ordering::Relaxed) && in_shuttle_thread() {
             shuttle::thread::sleep(std::time::Duration::from_millis(0));
         }
     }
@@ -226,3 +248,4 @@ pub fn log_digest(log: &[Event]) -> u64 {
     }
     h
 }
+
